@@ -15,7 +15,8 @@ INS = ["int8", "int16", "int32", "int64", "uint8", "uint16", "uint32", "uint64",
        "float32", "float64"]
 OUTS = ["uint8", "uint16", "uint32", "uint64", "float32"]
 KS = [8, 16, 24, 31, 32, 52, 53, 63, 64]
-LAYOUTS = ["contig", "strided", "negstride", "fortran", "readonly", "byteswapped", "subclass"]
+LAYOUTS = ["contig", "strided", "negstride", "fortran", "readonly", "byteswapped", "subclass",
+           "be_factory_be_chunk", "be_factory_native_chunk"]
 
 RULE = ("all 50 (input, output) dtype pairs x preserve_input in {True, False} x 7 array layouts (incl. an ndarray subclass); "
         "values: type limits +-1 of input and of every output type, 2^k and 2^k+-1 for k in "
@@ -279,7 +280,10 @@ def make_layout(np, layout, dt, raws, shape=None):
             pass
         arr = a.copy().view(_Sub)
         return arr, arr
-    if layout == "byteswapped":
+    if layout == "be_factory_native_chunk":
+        arr = a.copy()
+        return arr, arr
+    if layout in ("byteswapped", "be_factory_be_chunk"):
         arr = a.astype(a.dtype.newbyteorder(">" if a.dtype.isnative and a.dtype.byteorder != ">" else "<"))
         if arr.dtype.itemsize == 1:
             arr = a.copy()       # single bytes have no byte order
@@ -288,9 +292,23 @@ def make_layout(np, layout, dt, raws, shape=None):
 
 
 def layout_flags(layout, dt):
+    """(writeable, chunk in native byte order)"""
     writeable = layout != "readonly"
-    native = not (layout == "byteswapped" and dt not in ("int8", "uint8"))
+    native = not (layout in ("byteswapped", "be_factory_be_chunk") and dt not in ("int8", "uint8"))
     return writeable, native
+
+
+def factory_native(layout, dt):
+    """is the dtype OBJECT handed to get_chunk_dtype_transformer in native byte order?
+    (the be_factory_* layouts pass a byte-swapped dtype object such as '>i8')"""
+    return not (layout.startswith("be_factory") and dt not in ("int8", "uint8"))
+
+
+def factory_dtype(np, layout, dt):
+    d = np.dtype(dt)
+    if factory_native(layout, dt):
+        return d
+    return d.newbyteorder(">" if d.newbyteorder("<").isnative else "<")
 
 
 # ---------------------------------------------------------------- classification
@@ -310,9 +328,9 @@ def check_case(R, np, tf_cache, i, o, preserve, layout, raws, mrep, classes=None
     from harness.common import outcome_of
     from neuroglancer_scripts.data_types import get_chunk_dtype_transformer
     problems = 0
-    key = (i, o)
+    key = (i, o, factory_native(layout, i))
     if key not in tf_cache:
-        tf_cache[key] = get_chunk_dtype_transformer(i, o, warn=False)
+        tf_cache[key] = get_chunk_dtype_transformer(factory_dtype(np, layout, i), o, warn=False)
     tf = tf_cache[key]
     arr, base = make_layout(np, layout, i, raws, shape)
     before = from_array(np, arr)
@@ -419,6 +437,15 @@ class Judge:
         for k, b in enumerate(raws):
             want = self.want.get(b)
             if want is None:
+                if o == "float32" and is_float(self.i) and not raw_is_finite(self.i, b):
+                    # an infinite voxel stays infinite (same sign), NaN stays NaN: the float
+                    # output type holds these values exactly
+                    sign = b >> (63 if self.i == "float64" else 31)
+                    w = 0x7FC00000 if raw_is_nan(self.i, b) else (0x7F800000 | (sign << 31))
+                    if got[k] != w:
+                        R.violation("non-finite float value not preserved by a float output type",
+                                    dict(case, values=[b], index=k), {"impl": got[k], "spec": w})
+                        problems += 1
                 continue
             g = got[k]
             if g == want or (o == "float32" and {g, want} == {0, 0x80000000}):
@@ -470,6 +497,69 @@ def run_sequence(R, np, tf, i, o, steps, judge):
                             dict(case, changed_step=j), {"was": snap[:8], "now": from_array(np, old_res)[:8]})
                 return problems + 1
         kept.append((res, got))
+    return problems
+
+
+def big_specs(rng):
+    return [{"in": "float32", "out": "uint8", "big_shape": [100, 256, 192], "seed": rng.getrandbits(32),
+             "preserve": True},
+            {"in": "int32", "out": "uint8", "big_shape": [3, 1500, 1000], "seed": rng.getrandbits(32),
+             "preserve": False},
+            {"in": "float64", "out": "uint16", "big_shape": [7, 3, 450, 450], "seed": rng.getrandbits(32),
+             "preserve": False}]
+
+
+def big_case(R, np, spec_):
+    """One array above 2^22 elements: every element against the vectorised
+    restatement clip(rint(x)), 4096 sampled positions (spread over the whole
+    array, last slab included) against the extracted model."""
+    from harness.common import Atom
+    from neuroglancer_scripts.data_types import get_chunk_dtype_transformer
+    i, o, shape = spec_["in"], spec_["out"], tuple(spec_["big_shape"])
+    g = np.random.default_rng(spec_["seed"])
+    n = int(np.prod(shape))
+    lo, hi = irange(o)
+    if is_float(i):
+        x = g.uniform(lo - 60.0, hi + 60.0, size=n)
+        x[::7] = np.floor(x[::7]) + 0.5              # ties
+        x = x.astype(i).reshape(shape)
+        want = np.clip(np.rint(x.astype(np.float64)), lo, hi).astype(o)
+    else:
+        x = g.integers(lo - 300, hi + 300, size=n).astype(i).reshape(shape)
+        want = np.clip(x.astype(np.int64), lo, hi).astype(o)
+    before = x.copy()
+    arr = x if spec_["preserve"] else x.copy()
+    try:
+        with np.errstate(all="ignore"):
+            res = get_chunk_dtype_transformer(i, o, warn=False)(arr, preserve_input=spec_["preserve"])
+    except Exception as exc:  # noqa: BLE001
+        R.violation("the conversion raises instead of converting", spec_, {"exception": repr(exc)})
+        return 1
+    problems = 0
+    if res.dtype.name != o or res.shape != shape:
+        R.violation("result dtype/shape wrong", spec_, {"dtype": res.dtype.name, "shape": list(res.shape)})
+        return 1
+    if not np.array_equal(res, want):
+        bad = np.argwhere(res != want)
+        first = tuple(int(v) for v in bad[0])
+        R.violation("result is not the nearest representable value (half-to-even, saturating)", spec_,
+                    {"wrong_elements": int(len(bad)), "first_index": first,
+                     "input": float(before[first]), "impl": int(res[first]), "spec": int(want[first])})
+        problems += 1
+    if spec_["preserve"] and not np.array_equal(arr, before):
+        R.violation("input modified although preserve_input=True", spec_, {})
+        problems += 1
+    # the model on a sample
+    pos = np.unique(np.concatenate([g.integers(0, n, size=4000), np.arange(n - 96, n)]))
+    flat_in = before.reshape(-1)[pos]
+    raws = from_array(np, flat_in)
+    rep = R.model.call("convert", [Atom(i), Atom(o), True, True, True, raws])
+    got = [int(v) for v in res.reshape(-1)[pos]]
+    if got != rep[0]:
+        k = [j for j in range(len(raws)) if got[j] != rep[0][j]][0]
+        R.disagree("large array vs Convert.convert", dict(spec_, values=[raws[k]], flat_index=int(pos[k])),
+                   got[k], rep[0][k])
+        problems += 1
     return problems
 
 
@@ -536,15 +626,15 @@ def run(R):
             for layout in LAYOUTS:
                 wr, nat = layout_flags(layout, i)
                 for preserve in (True, False):
-                    fs = (preserve, wr, nat)
+                    fs = (preserve, wr, nat, factory_native(layout, i))
                     if fs not in flagsets:
                         flagsets.append(fs)
             streams = [("finite", fin)] + ([("nonfinite", nonfin)] if nonfin else [])
             streams.append(("empty", []))
             reqs = []
             for _sn, raws in streams:
-                for (preserve, wr, nat) in flagsets:
-                    reqs.append(("convert", [Atom(i), Atom(o), preserve, wr, nat, raws]))
+                for (preserve, wr, nat, fnat) in flagsets:
+                    reqs.append(("convert_bo", [Atom(i), Atom(o), preserve, wr, nat, fnat, raws]))
             reqs.append(("nearest_sat_of", [Atom(i), Atom(o), fin]))
             reqs.append(("guards", [Atom(i), Atom(o), fin]))
             reps = R.model.batch(reqs)
@@ -560,7 +650,7 @@ def run(R):
                 for layout in LAYOUTS:
                     wr, nat = layout_flags(layout, i)
                     for preserve in (True, False):
-                        mrep = mreps[(preserve, wr, nat)]
+                        mrep = mreps[(preserve, wr, nat, factory_native(layout, i))]
                         nprob = check_case(R, np, tf_cache, i, o, preserve, layout, raws, mrep, judge=judge)
                         nontriv = (i != o)
                         R.case({"in": i, "out": o, "preserve": preserve, "layout": layout,
@@ -575,8 +665,8 @@ def run(R):
                 if sn == "finite":
                     arr = to_array(np, i, raws, (len(raws) // 4, 4))
                     with np.errstate(all="ignore"):
-                        got = from_array(np, tf_cache[(i, o)](arr))
-                        got2 = from_array(np, tf_cache[(i, o)](arr.copy(), preserve_input=False))
+                        got = from_array(np, tf_cache[(i, o, True)](arr))
+                        got2 = from_array(np, tf_cache[(i, o, True)](arr.copy(), preserve_input=False))
                     if got2 != got:
                         k = [j for j in range(len(raws)) if got[j] != got2[j]][0]
                         R.violation("result depends on preserve_input",
@@ -628,7 +718,7 @@ def run(R):
     reqs = []
     for (i, o, shape, raws, layout, preserve) in shp_cases:
         wr, nat = layout_flags(layout, i)
-        reqs.append(("convert", [Atom(i), Atom(o), preserve, wr, nat, raws]))
+        reqs.append(("convert_bo", [Atom(i), Atom(o), preserve, wr, nat, factory_native(layout, i), raws]))
     reps = R.model.batch(reqs)
     for (i, o, shape, raws, layout, preserve), mrep in zip(shp_cases, reps):
         check_case(R, np, tf_cache, i, o, preserve, layout, raws, mrep, shape=shape, judge=judges[(i, o)])
@@ -636,6 +726,15 @@ def run(R):
                nontrivial=(i != o))
         R.count(f"shape-ndim:{len(shape)}")
         R.traces += len(raws)
+
+    # ------------------------------------------------------------ large arrays
+    # two deterministic arrays above 2^22 elements per run (whole volumes / big chunks),
+    # judged against a vectorised NumPy restatement and, on a sample, the model
+    for spec_ in big_specs(rng):
+        big_case(R, np, spec_)
+        R.case(spec_, nontrivial=True)
+        R.count("large-array")
+        R.traces += 1
 
     # ------------------------------------------------------------ dtype assertion
     from harness.common import outcome_of, model_outcome
@@ -687,6 +786,9 @@ def replay(R, payload):
         return True
     i, o = case["in"], case["out"]
     from neuroglancer_scripts.data_types import get_chunk_dtype_transformer
+    if "big_shape" in case:
+        return bool(big_case(R, np, {k: case[k] for k in ("in", "out", "big_shape", "seed", "preserve")})
+                    or R.violations or R.disagreements)
     if "sequence" in case:
         steps = case["sequence"]
         judge = build_judge(R, i, o, [b for st in steps for b in st["values"]])
@@ -697,7 +799,7 @@ def replay(R, payload):
     layout = case.get("layout", "contig")
     preserve = case.get("preserve", True)
     wr, nat = layout_flags(layout, i)
-    mrep = R.model.call("convert", [Atom(i), Atom(o), preserve, wr, nat, raws])
+    mrep = R.model.call("convert_bo", [Atom(i), Atom(o), preserve, wr, nat, factory_native(layout, i), raws])
     judge = build_judge(R, i, o, raws)
     n = check_case(R, np, {}, i, o, preserve, layout, raws, mrep, record=False, shape=shape, judge=judge)
     return bool(n or R.violations or R.disagreements)
